@@ -207,6 +207,20 @@ Example C12_nonvacuous :
   filter_as_streams (matches_tab rows) fs [0; 1; 2; 3; 4] (Some 2%nat) = ([0; 2], None).
 Proof. vm_compute. repeat split. Qed.
 
+(* the instance used by the correspondence check meets the hypothesis of the ExportLifecycles section *)
+Lemma lc_filter_case_negative c l : f_enabled (lc_filter_case c l) = true /\ f_kind (lc_filter_case c l) = Negative.
+Proof. split; reflexivity. Qed.
+
+(* non-vacuity of the lifecycle part: three entries to keep, lifecycles 0 and 2 are found (in that order), 1 is
+   not; one configured negative filter vetoes messages 1, 3, 5: written = [0; 4], exported lifecycles [0; 2] *)
+Example C12_export_lifecycles_nonvacuous :
+  let c := mkCase [(1, true, [false; true; false; true; false; true])] 6 None 0 1073741824 true None None
+                  [0; 1000; 2000; 3000; 4000; 5000] 3 true [0; 0; 1; 1; 2; 2] [true; true; true; true; true; true]
+                  [[false; false; false; false; true; true]; [false; false; false; false; false; false];
+                   [true; true; false; false; false; false]] in
+  exists r, run_C12 c = T [fst r; fst (snd r); snd (snd r); T [T [L 0; L 4]; L 2; L 6; T [L 0; L 2]]].
+Proof. cbv zeta. eexists (_, (_, _)). vm_compute. reflexivity. Qed.
+
 Print Assumptions C12_keep_rule_meaning.
 Print Assumptions C12_stream_filter_spec.
 Print Assumptions C12_stream_filter_hangup.
@@ -224,3 +238,4 @@ Print Assumptions C12_export_lifecycles_monotone.
 Print Assumptions C12_export_no_lifecycles.
 Print Assumptions C12_enabled_test_in_constructor_needed.
 Print Assumptions C12_nonvacuous.
+Print Assumptions C12_export_lifecycles_nonvacuous.
